@@ -102,8 +102,9 @@ def correspondence(tag, cases_obs, shard=150):
 
 
 class AGen:
-    def __init__(self, rng, max_actions=18, drain=True, mix=False, block=False):
+    def __init__(self, rng, max_actions=18, drain=True, mix=False, block=False, detach=False):
         self.r = rng
+        self.detach = detach
         self.mix = mix
         self.block = block
         self.max_actions = max_actions
@@ -132,7 +133,7 @@ class AGen:
             return {"k": kind, "maxsize": r.choice([1, 1, 2, 3])}
         if kind == "map_async":
             return {"k": kind, "parallelism": r.choice([1, 1, 2, 3])}
-        if kind in ("plain", "flatten"):
+        if kind in ("plain", "flatten", "zip_latest"):
             return {"k": kind}
         raise KeyError(kind)
 
@@ -152,11 +153,13 @@ class AGen:
         r = self.r
         self.kind = kind
         sp = self.spec(kind)
+        if "interval" in sp and r.random() < 0.3:
+            sp["ispec"] = r.choice(["str", "compound", "compound"])      # the same interval written as a duration string
         sink = r.choice(["ctl", "ctl", "coro", "tornado", "sync"])
         acts = []
         nrc = 0
         n = r.randint(1, self.max_actions)
-        nsrc = 2 if kind == "zip" else (3 if kind == "zip3" else 1)
+        nsrc = 2 if kind in ("zip", "zip_latest") else (3 if kind == "zip3" else 1)
         # values: 1, 2, 3, ... or 0, 1, 2, ... (a falsy first element); for nodes whose value is never used as a number,
         # one of the elements may be None (a legal element like any other)
         self.nextval = r.choice([0, -1])
@@ -211,6 +214,15 @@ class AGen:
                 acts.append(["task", r.choice([0, 0, 1, 2])])
             else:
                 acts.append(["adv", r.choice([1, 1, 2, 3, 4, 4, 5, 8])])
+        if self.detach and kind in ("latest", "timed_window", "timed_window_unique", "buffer", "delay", "rate_limit", "partition") \
+                and pmix == 0.0 and r.random() < 0.2:
+            # the feed of the node is swapped while it works: detached, some time / consumer completions go by, attached again
+            pos = r.randrange(len(acts) + 1)
+            gap = [["detach"]]
+            for _ in range(r.choice([1, 2, 3])):
+                gap.append(r.choice([["adv", r.choice([1, 2, 4, 6, 9])], ["ack"], ["adv", r.choice([3, 5, 8])]]))
+            gap.append(["attach"])
+            acts[pos:pos] = gap
         if self.drain:
             k = sum(1 for a in acts if a[0] == "emit") + sum(len(a[2]) for a in acts if a[0] == "mix") + 3
             if kind == "flatten":
@@ -222,7 +234,7 @@ class AGen:
                 acts.append(["adv", 8])
             acts.append(["ack"])
         case = {"node": sp, "sink": sink, "actions": acts}
-        if self.mix and pmix == 0.0 and kind not in ("zip", "zip3", "flatten") and r.random() < 0.3 and self.nextval >= 1:
+        if self.mix and pmix == 0.0 and kind not in ("zip", "zip3", "flatten", "zip_latest") and not any(a[0] == "detach" for a in acts) and r.random() < 0.3 and self.nextval >= 1:
             # the consumer reacts to some elements by emitting follow-ups into the source inside the hand-over
             react = {}
             nv = 500
